@@ -892,6 +892,19 @@ func sectionOf(kind string, id int, g *gen, chunks []string) verifh.Section {
 	if h%11 == 2 {
 		s.Ops = append(s.Ops, "file")
 	}
+	// round 5c: a failing writer, concurrent calls, format.File on a name that cannot be read
+	if h%7 == 3 {
+		s.Ops = append(s.Ops, "wrerr")
+	}
+	if h%13 == 4 {
+		s.Ops = append(s.Ops, "par")
+	}
+	if h%17 == 5 {
+		s.Ops = append(s.Ops, "filex missing")
+	}
+	if h%17 == 6 {
+		s.Ops = append(s.Ops, "filex dir")
+	}
 	return s
 }
 
